@@ -7,6 +7,9 @@ import (
 	"os"
 	"os/exec"
 	"path/filepath"
+	"regexp"
+	"sync"
+	"sync/atomic"
 	"strings"
 	"time"
 )
@@ -278,6 +281,96 @@ func solveOne(file string, timeoutS int, seed int, crossCheck bool) SolveResult 
 	return best
 }
 
+var reEdgeIte = regexp.MustCompile(`\(ite (\|E\d+_\d+!\d+\|) `)
+
+// splitOnEdges: try to decide an undecided query by case analysis on edge predicates used in merges (ite).
+// Greedy and sound: in each round every candidate predicate P is tried in both polarities under the literals
+// fixed so far; if both are unsat the goal is discharged (P or not P); if exactly one polarity is unsat that
+// case is closed and the search continues inside the other one. Each closed case was refuted by a solver.
+func splitOnEdges(file, full string, timeoutS, seed int) (SolveResult, bool) {
+	seen := map[string]bool{}
+	var cands []string
+	for _, m := range reEdgeIte.FindAllStringSubmatch(full, -1) {
+		if !seen[m[1]] {
+			seen[m[1]] = true
+			cands = append(cands, m[1])
+		}
+	}
+	if len(cands) > 10 {
+		cands = cands[:10]
+	}
+	body := strings.TrimSuffix(strings.TrimSpace(full), "(check-sat)")
+	var total float64
+	var fixed []string
+	used := map[string]bool{}
+	qn := 0
+	for round := 0; round < 2; round++ {
+		type res struct {
+			sym      string
+			pos, neg bool
+			sec      float64
+		}
+		var open []string
+		for _, c := range cands {
+			if !used[c] {
+				open = append(open, c)
+			}
+		}
+		if len(open) == 0 {
+			break
+		}
+		ch := make(chan res, len(open))
+		sem := make(chan struct{}, 5)
+		prefix := body
+		for _, l := range fixed {
+			prefix += "(assert " + l + ")\n"
+		}
+		for _, c := range open {
+			qn++
+			go func(k int, c string) {
+				sem <- struct{}{}
+				defer func() { <-sem }()
+				r := res{sym: c}
+				for p, lit := range []string{c, "(not " + c + ")"} {
+					f := fmt.Sprintf("%s.split%d_%d.smt2", file, k, p)
+					_ = os.WriteFile(f, []byte(prefix+"(assert "+lit+")\n(check-sat)\n"), 0o644)
+					sr, _ := race(f, []attempt{{solvers[0], seed, timeoutS}, {solvers[2], seed, timeoutS}})
+					r.sec += sr.Seconds
+					if p == 0 {
+						r.pos = sr.Status == "unsat"
+					} else {
+						r.neg = sr.Status == "unsat"
+					}
+					_ = os.Remove(f)
+				}
+				ch <- r
+			}(qn, c)
+		}
+		var pick *res
+		for range open {
+			r := <-ch
+			total += r.sec
+			if r.pos && r.neg {
+				return SolveResult{Status: "unsat", Solver: fmt.Sprintf("z3+case-split(%d edges)", len(fixed)+1), Seconds: total}, true
+			}
+			if (r.pos || r.neg) && pick == nil {
+				rr := r
+				pick = &rr
+			}
+		}
+		if pick == nil {
+			break
+		}
+		used[pick.sym] = true
+		if pick.pos {
+			fixed = append(fixed, "(not "+pick.sym+")")
+		} else {
+			fixed = append(fixed, pick.sym)
+		}
+	}
+	return SolveResult{}, false
+}
+
 // solve: discharge one obligation. Conjunctive goals are split and each conjunct is decided on its own.
 func solve(dir string, id int, e *Enc, o *Obl, timeoutS int, seed int, crossCheck bool) SolveResult {
 	want := "unsat"
@@ -291,6 +384,19 @@ func solve(dir string, id int, e *Enc, o *Obl, timeoutS int, seed int, crossChec
 		goals = []goal{{o.Path, o.Cond, o.Extra}}
 	} else if len(o.Subs) > 0 {
 		for _, sg := range o.Subs {
+			if len(sg.Splits) > 1 {
+				var cases []T
+				for _, lits := range sg.Splits {
+					cs := And(lits...)
+					cases = append(cases, cs)
+					for _, c := range splitConj(sg.Cond.S) {
+						goals = append(goals, goal{And(sg.Path, cs), T{c, SBool}, sg.Extra})
+					}
+				}
+				// coverage: on this return path one of the cases applies
+				goals = append(goals, goal{sg.Path, Or(cases...), sg.Extra})
+				continue
+			}
 			for _, c := range splitConj(sg.Cond.S) {
 				goals = append(goals, goal{sg.Path, T{c, SBool}, sg.Extra})
 			}
@@ -301,14 +407,22 @@ func solve(dir string, id int, e *Enc, o *Obl, timeoutS int, seed int, crossChec
 		}
 	}
 	total := SolveResult{Status: want}
+	// queries are generated sequentially (the encoder is not concurrent), then discharged a few at a time
+	type job struct {
+		k    int
+		g    goal
+		file string
+		full string
+		res  SolveResult
+	}
+	var jobs []*job
 	for k, g := range goals {
+		if g.cond.S == "true" {
+			continue
+		}
 		sub := *o
 		sub.Subs = nil
 		sub.Path, sub.Cond, sub.Extra = g.path, g.cond, g.extra
-		c := g.cond
-		if c.S == "true" {
-			continue
-		}
 		file := filepath.Join(dir, fmt.Sprintf("q%05d_%d.smt2", id, k))
 		full := "(set-logic ALL)\n" + e.Query(&sub)
 		if o.Cover {
@@ -317,32 +431,72 @@ func solve(dir string, id int, e *Enc, o *Obl, timeoutS int, seed int, crossChec
 		if err := os.WriteFile(file, []byte(full), 0o644); err != nil {
 			return SolveResult{Status: "error", Output: err.Error()}
 		}
-		r := solveOne(file, timeoutS, seed, crossCheck)
+		jobs = append(jobs, &job{k: k, g: g, file: file, full: full})
+	}
+	var wg sync.WaitGroup
+	sem := make(chan struct{}, 4)
+	var failed atomic.Bool
+	for _, j := range jobs {
+		wg.Add(1)
+		go func(j *job) {
+			defer wg.Done()
+			sem <- struct{}{}
+			defer func() { <-sem }()
+			if failed.Load() {
+				j.res = SolveResult{Status: "skipped"}
+				return
+			}
+			r := solveOne(j.file, timeoutS, seed, crossCheck)
+			if r.Status != want && r.Status != "sat" && !o.Cover {
+				// undecided: case split on control-flow edge predicates that merge values (phi); sound, see splitOnEdges
+				if sr, ok := splitOnEdges(j.file, j.full, min(timeoutS, 5), seed); ok {
+					sr.Seconds += r.Seconds
+					r = sr
+				}
+			}
+			if r.Status != want {
+				failed.Store(true)
+			}
+			j.res = r
+		}(j)
+	}
+	wg.Wait()
+	for _, j := range jobs {
+		r := j.res
+		if r.Status == "skipped" {
+			continue
+		}
 		total.Seconds += r.Seconds
 		if total.Solver == "" {
 			total.Solver = r.Solver
 		} else if !strings.Contains(total.Solver, r.Solver) {
 			total.Solver += "+" + r.Solver
 		}
-		total.Agree = r.Agree
+		if len(r.Agree) > 0 {
+			total.Agree = r.Agree
+		}
 		if r.Conflict != "" {
 			total.Conflict = r.Conflict
 		}
-		if r.Status != want {
-			total.Status = r.Status
-			total.Output = r.Output
-			total.FailedConjunct = c.S
-			total.FailedPath = g.path.S
-			if r.Status == "sat" && want == "unsat" {
-				mfile := filepath.Join(dir, fmt.Sprintf("q%05d_%d_model.smt2", id, k))
-				_ = os.WriteFile(mfile, []byte("(set-option :produce-models true)\n"+full+"(get-model)\n"), 0o644)
-				mr := runSolver(context.Background(), solvers[0], mfile, min(timeoutS, 10), seed)
-				if mr.Status == "sat" {
-					total.Model = mr.Output
-				}
-			}
-			return total
+	}
+	for _, j := range jobs {
+		r := j.res
+		if r.Status == "skipped" || r.Status == want {
+			continue
 		}
+		total.Status = r.Status
+		total.Output = r.Output
+		total.FailedConjunct = j.g.cond.S
+		total.FailedPath = j.g.path.S
+		if r.Status == "sat" && want == "unsat" {
+			mfile := filepath.Join(dir, fmt.Sprintf("q%05d_%d_model.smt2", id, j.k))
+			_ = os.WriteFile(mfile, []byte("(set-option :produce-models true)\n"+j.full+"(get-model)\n"), 0o644)
+			mr := runSolver(context.Background(), solvers[0], mfile, min(timeoutS, 10), seed)
+			if mr.Status == "sat" {
+				total.Model = mr.Output
+			}
+		}
+		return total
 	}
 	return total
 }
